@@ -17,9 +17,10 @@
 (* the real from_dok / from_aos / from_soa / from_lol, taco_indices,       *)
 (* taco_vals, items, to_dok, to_format and pickle and compares.            *)
 (***************************************************************************)
-EXTENDS Storage, Json
+EXTENDS Storage, Json, Randomization
 
-CONSTANTS MaxOrder, MaxDim, Orders, AllTargets
+CONSTANTS MaxOrder, MaxDim, Orders, AllTargets,
+          MaxEntries   \* bound on the number of distinct coordinates of a request (large dimensions are sampled)
 
 VARIABLES stage, n, fmt, dims, data, fmt2
 vars == <<stage, n, fmt, dims, data, fmt2>>
@@ -41,6 +42,13 @@ Entries(S, kind) ==
        [] kind = 3 -> IF S = {} THEN base ELSE [base EXCEPT ![1] = <<sq[1], DZero>>]
        [] kind = 4 -> IF S = {} THEN base ELSE Append(base, <<sq[1], DInt(-1)>>)
 
+\* subsets of at most k elements, built without enumerating the power set
+RECURSIVE SmallSets(_, _)
+SmallSets(U, k) == IF k = 0 \/ U = {} THEN {{}}
+                   ELSE LET prev == SmallSets(U, k - 1) IN prev \cup {T \cup {x} : T \in prev, x \in U}
+\* large dimensions (MaxEntries < 99, used with -simulate): one random subset instead of all of them
+Pick(U, k) == RandomSubset(IF Cardinality(U) >= k THEN k ELSE 0, U)
+
 \* one coordinate just outside dimension d (or below zero)
 Outside(ds, d, low) == [j \in 1..Len(ds) |-> IF j = d THEN (IF low THEN -1 ELSE ds[d]) ELSE 0]
 
@@ -57,12 +65,19 @@ PickDims == /\ stage = "dims"
             /\ stage' = "data" /\ UNCHANGED <<n, fmt, data, fmt2>>
 PickData ==
   /\ stage = "data"
-  /\ \/ \E S \in SUBSET AllCoords(dims) : \E kind \in 0..4 : data' = Entries(S, kind)
-     \/ \E d \in 1..n : \E low \in BOOLEAN :
-           \* an out-of-range entry next to one in-range entry (when there is room for one)
-           /\ (~low => TRUE)
-           /\ data' = (IF AllCoords(dims) = {} THEN <<>> ELSE << <<CHOOSE c \in AllCoords(dims) : TRUE, DInt(1)>> >>)
-                      \o << <<Outside(dims, d, low), DInt(5)>> >>
+  /\ \/ /\ MaxEntries >= 99
+        /\ \E S \in SUBSET AllCoords(dims) : \E kind \in 0..4 : data' = Entries(S, kind)
+     \/ /\ MaxEntries < 99
+        /\ \E k \in 0..MaxEntries : \E kind \in 0..4 : data' = Entries(Pick(AllCoords(dims), k), kind)
+     \/ \E d \in 1..n : \E low \in BOOLEAN : \E where \in 0..3 :
+        \E S \in (IF MaxEntries >= 99 THEN SmallSets(AllCoords(dims), 3) ELSE {Pick(AllCoords(dims), 3)}) :
+           \* an out-of-range entry among up to three in-range ones, at any position of the list and - because the
+           \* other coordinates of the bad entry are taken from an in-range one - in any row of the structure
+           LET base == Entries(S, 0)
+               like == IF S = {} THEN [j \in 1..n |-> 0] ELSE (CHOOSE c \in S : TRUE)
+               bad == [j \in 1..n |-> IF j = d THEN (IF low THEN -1 ELSE dims[d]) ELSE like[j]]
+               at == IF where > Len(base) THEN Len(base) ELSE where
+           IN data' = SubSeq(base, 1, at) \o << <<bad, DInt(5)>> >> \o SubSeq(base, at + 1, Len(base))
   /\ stage' = "target" /\ UNCHANGED <<n, fmt, dims, fmt2>>
 
 Targets == IF AllTargets THEN Formats(n)
